@@ -1005,3 +1005,202 @@ Proof.
       rewrite A. change (digits_val "") with 0. rewrite Z.sub_0_l. reflexivity.
   - destruct (p =? 0); [exact I | apply all_digits_fixed].
 Qed.
+
+(* ------------------------------------------------------------------------------------------ *)
+(* 9. float nodes: what the scientific and the fixed branch of format() write *)
+
+Definition dabs (x : dbl) : Q := (inject_Z (dman x) * (2 # 1) ^ (dexp x))%Q.
+
+Lemma dval_dabs : forall x, (dval x == sgnQ (dneg x) * dabs x)%Q.
+Proof. intros. unfold dval, dabs. ring. Qed.
+
+Lemma p2_inject : forall k, 0 <= k -> ((2 # 1) ^ k == inject_Z (2 ^ k))%Q.
+Proof. intros k H. rewrite (Zpower_Qpower 2 k H). reflexivity. Qed.
+
+Lemma d_frac : forall x, (dabs x * inject_Z (d_den x) == inject_Z (d_num x))%Q /\ 0 < d_den x.
+Proof.
+  intros x. unfold dabs, d_den, d_num. destruct (0 <=? dexp x) eqn:E.
+  - apply Z.leb_le in E. split; [|lia]. rewrite inject_Z_mult, <- (p2_inject _ E). ring.
+  - apply Z.leb_gt in E. split; [|apply Z.pow_pos_nonneg; lia].
+    rewrite <- (p2_inject (- dexp x)) by lia.
+    transitivity (inject_Z (dman x) * ((2 # 1) ^ dexp x * (2 # 1) ^ (- dexp x)))%Q; [ring|].
+    rewrite <- Qpower_plus by discriminate. rewrite Z.add_opp_diag_r. cbn. ring.
+Qed.
+
+Lemma d_num_pos : forall x, 0 < dman x -> 0 < d_num x.
+Proof.
+  intros x H. unfold d_num. destruct (0 <=? dexp x) eqn:E; [|exact H].
+  apply Z.leb_le in E. apply Z.mul_pos_pos; [exact H | apply Z.pow_pos_nonneg; lia].
+Qed.
+
+Lemma dabs_nonneg : forall x, 0 <= dman x -> (0 <= dabs x)%Q.
+Proof.
+  intros x H. unfold dabs. apply Qmult_le_0_compat.
+  - unfold Qle. cbn. lia.
+  - apply Qlt_le_weak. apply Qpower_0_lt. reflexivity.
+Qed.
+
+Lemma sgnQ_abs : forall b y, (Qabs (sgnQ b * y) == Qabs y)%Q.
+Proof. intros b y. rewrite Qabs_Qmult. destruct b; cbn; ring. Qed.
+
+Definition sign_opt (sopt : ascii) (neg : bool) : option ascii :=
+  if neg then Some "-"%char
+  else if Ascii.eqb sopt "+"%char then Some "+"%char
+  else if Ascii.eqb sopt " "%char then Some " "%char
+  else None.
+Lemma sign_text_opt : forall sopt neg, sign_text sopt neg = sign_str (sign_opt sopt neg).
+Proof.
+  intros. unfold sign_text, sign_opt. destruct neg; [reflexivity|].
+  destruct (Ascii.eqb sopt "+"); [reflexivity|]. destruct (Ascii.eqb sopt " "); reflexivity.
+Qed.
+
+Lemma zfill_exp_text : forall E ezp,
+  ljust (zfill "" (show_nat_Z (Z.abs E)) ezp) ezp = exp_text ezp E.
+Proof.
+  intros E ezp. unfold ljust, zfill, exp_text. cbn [append].
+  change (slen "") with 0. rewrite Z.sub_0_r.
+  rewrite blanks_nonpos; [apply sapp_nil_r|].
+  rewrite slen_app, slen_zeros. lia.
+Qed.
+
+(* the scientific branch: the text is  sign zeros d0.d1..dp divider sign exponent  and reads as
+   (sign, D, E - p) for the digits (D, E) of the digit generation *)
+Lemma sci_branch_read : forall nd f x temp,
+  n_isfloat nd = true -> is_scientific f = true -> 0 <= precision f ->
+  exponent_length f = exponent_zero_pad f ->
+  (divider f = "" \/ divider f = "e" \/ divider f = "E") ->
+  can_float_to_int nd f (VFlt x) = Ok false ->
+  0 <= dman x ->
+  render_temp nd true f (VFlt x) = Ok temp ->
+  exists D E, read_number temp = Some (dneg x, D, E - precision f) /\
+    (dman x = 0 /\ D = 0 \/
+     0 < dman x /\ sci_digits (precision f) (d_num x) (d_den x) = Some (D, E)).
+Proof.
+  intros nd f x temp Hf Hs Hp Hel Hdiv Hc Hm H.
+  unfold render_temp in H. rewrite Hc in H. cbn [bind] in H. rewrite Hf in H.
+  cbn [negb orb to_dbl] in H. rewrite Hs in H.
+  set (p := precision f) in *.
+  assert (Hl : exists letter, divider f = sign_str letter /\
+               (letter = None \/ letter = Some "e"%char \/ letter = Some "E"%char)).
+  { destruct Hdiv as [->|[->| ->]]; [exists None | exists (Some "e"%char) | exists (Some "E"%char)]; auto. }
+  destruct Hl as (letter & Dl & Hl). rewrite Dl in H.
+  rewrite sign_text_opt in H.
+  assert (G : forall D E, 0 <= D < 10 ^ (p + 1) ->
+     (if starts_with " " (sign_str (sign_opt (f_sign f) (dneg x))) then Err EAttribute
+      else Ok (sign_str (sign_opt (f_sign f) (dneg x)) ++
+               zeros (zero_padding f - slen (sign_str (sign_opt (f_sign f) (dneg x))) -
+                      slen (mantissa_text p D ++ "e" ++ exp_sign E ++ exp_digits E)) ++
+               mantissa_text p D ++ sign_str letter ++ exp_sign E ++
+               ljust (zfill "" (show_nat_Z (Z.abs E)) (exponent_zero_pad f)) (exponent_length f)))
+     = Ok temp ->
+     read_number temp = Some (dneg x, D, E - p)).
+  { intros D E HD HH. rewrite Hel, zfill_exp_text in HH.
+    unfold sign_opt in HH.
+    destruct (dneg x) eqn:Ng.
+    - cbn [sign_str starts_with Ascii.eqb Bool.eqb] in HH. inversion HH; subst temp.
+      apply (read_sci_text (Some "-"%char)); auto.
+    - destruct (Ascii.eqb (f_sign f) "+").
+      + cbn [sign_str starts_with] in HH. inversion HH; subst temp.
+        apply (read_sci_text (Some "+"%char)); auto.
+      + destruct (Ascii.eqb (f_sign f) " ").
+        * cbn in HH. discriminate.
+        * cbn [sign_str starts_with] in HH. inversion HH; subst temp.
+          apply (read_sci_text None); auto. }
+  unfold e_parts in H. destruct (dman x =? 0) eqn:Z0.
+  - apply Z.eqb_eq in Z0. cbn [bind] in H. exists 0, 0. split.
+    + apply G; [|exact H]. split; [lia | apply pow10_pos; lia].
+    + left. auto.
+  - apply Z.eqb_neq in Z0.
+    destruct (sci_digits p (d_num x) (d_den x)) as [[D E]|] eqn:SD; [|discriminate].
+    cbn [bind] in H. exists D, E.
+    destruct (d_frac x) as [Fx Dp].
+    destruct (sci_digits_spec (d_num x) (d_den x) (d_num_pos x ltac:(lia)) Dp (dabs x) Fx p D E Hp SD)
+      as [[D1 D2] _].
+    split.
+    + apply G; [|exact H]. pose proof (pow10_pos p Hp). lia.
+    + right. split; [lia | exact SD].
+Qed.
+
+(* ... and its error: at most half a unit of the last digit, relative to the value *)
+Lemma sci_branch_error : forall nd f x temp,
+  n_isfloat nd = true -> is_scientific f = true -> 0 <= precision f ->
+  exponent_length f = exponent_zero_pad f ->
+  (divider f = "" \/ divider f = "e" \/ divider f = "E") ->
+  can_float_to_int nd f (VFlt x) = Ok false ->
+  0 <= dman x ->
+  render_temp nd true f (VFlt x) = Ok temp ->
+  exists r, read_number temp = Some r /\
+    (Qabs (decval r - dval x) <= (1 # 2) * p10 (- precision f) * Qabs (dval x))%Q.
+Proof.
+  intros nd f x temp Hf Hs Hp Hel Hdiv Hc Hm H.
+  destruct (sci_branch_read nd f x temp Hf Hs Hp Hel Hdiv Hc Hm H) as (D & E & R & C).
+  exists (dneg x, D, E - precision f). split; [exact R|].
+  unfold decval. rewrite dval_dabs.
+  assert (Eq : (sgnQ (dneg x) * inject_Z D * (10 # 1) ^ (E - precision f) - sgnQ (dneg x) * dabs x
+                == sgnQ (dneg x) * (inject_Z D * p10 (E - precision f) - dabs x))%Q)
+    by (unfold p10; ring).
+  rewrite Eq, !sgnQ_abs.
+  pose proof (dabs_nonneg x Hm) as NN. rewrite (Qabs_pos (dabs x) NN).
+  destruct C as [[Z0 ->]|[Pm SD]].
+  - assert (A0 : (dabs x == 0)%Q) by (unfold dabs; rewrite Z0; ring).
+    rewrite A0. rewrite Qmult_0_l, Qmult_0_r. cbn. unfold Qle; cbn; lia.
+  - destruct (d_frac x) as [Fx Dp].
+    destruct (sci_digits_spec (d_num x) (d_den x) (d_num_pos x Pm) Dp (dabs x) Fx _ D E Hp SD) as [_ B].
+    apply Qabs_Qle_condition. exact B.
+Qed.
+
+(* the fixed branch *)
+Lemma fixed_branch_error : forall nd f x temp,
+  n_isfloat nd = true -> is_scientific f = false -> as_int f = false -> 0 <= precision f ->
+  0 <= dman x ->
+  render_temp nd true f (VFlt x) = Ok temp ->
+  exists r, read_number (drop_blank temp) = Some r /\
+    (Qabs (decval r - dval x) <= (1 # 2) * p10 (- precision f))%Q.
+Proof.
+  intros nd f x temp Hf Hs Ha Hp Hm H.
+  unfold render_temp, can_float_to_int in H. rewrite Hf, Ha in H. cbn [andb negb bind orb to_dbl] in H.
+  rewrite Hs, Ha in H. inversion H; subst temp; clear H.
+  set (p := precision f) in *. unfold f_body.
+  set (D := scale_round (d_num x) (d_den x) p).
+  destruct (d_frac x) as [Fx Dp].
+  assert (HD : 0 <= D).
+  { (* D >= x*10^p - 1/2 > -1 *)
+    destruct (Z.eq_dec (dman x) 0) as [Z0|NZ].
+    - unfold D, scale_round, d_num. rewrite Z0. unfold rhe.
+      destruct (0 <=? dexp x); destruct (0 <=? p); cbn; rewrite ?Z.mul_0_l; cbn;
+        try (rewrite Z.div_0_l, Z.mod_0_l); cbn; try lia.
+      all: try (intro C; pose proof (pow10_pos (- p)); pose proof (Z.pow_pos_nonneg 2 (- dexp x)); nia).
+    - pose proof (scale_round_spec (d_num x) (d_den x) Dp (dabs x) Fx p) as [L _]. fold D in L.
+      pose proof (dabs_nonneg x Hm) as NN. pose proof (p10_pos p) as PP.
+      assert (Q0 : (- (1 # 2) <= inject_Z D)%Q) by nra.
+      unfold Qle in Q0. cbn in Q0. lia. }
+  exists (dneg x, D, - p). split.
+  - unfold zfill. rewrite sign_text_opt. unfold sign_opt.
+    destruct (dneg x).
+    + cbn [sign_str append drop_blank]. apply (read_fixed_text (Some "-"%char)); auto.
+    + destruct (Ascii.eqb (f_sign f) "+").
+      * cbn [sign_str append drop_blank]. apply (read_fixed_text (Some "+"%char)); auto.
+      * destruct (Ascii.eqb (f_sign f) " ").
+        -- cbn [sign_str append drop_blank]. apply (read_fixed_text None); auto.
+        -- cbn [sign_str append].
+           set (body := if p =? 0 then _ else _).
+           assert (Hb : exists c rest, zeros (zero_padding f - slen "" - slen body) ++ body = String c rest
+                                       /\ is_digit c = true).
+           { assert (Hbd : exists c rest, body = String c rest /\ is_digit c = true).
+             { pose proof (show_nonempty (D / 10 ^ p)) as Ne. pose proof (all_digits_show (D / 10 ^ p)) as Ad.
+               unfold body. destruct (show_nat_Z (D / 10 ^ p)) as [|c rest]; [congruence|].
+               cbn in Ad. apply andb_true_iff in Ad.
+               destruct (p =? 0); eexists; eexists; (split; [reflexivity | apply Ad]). }
+             destruct Hbd as (c & rest & -> & Hc).
+             unfold zeros. destruct (Z.to_nat _) as [|k]; cbn; eexists; eexists; (split; [reflexivity|]);
+               [exact Hc | reflexivity]. }
+           destruct Hb as (c & rest & Eb & Hc). rewrite Eb.
+           assert (Db : drop_blank (String c rest) = String c rest).
+           { unfold drop_blank. destruct c as [[] [] [] [] [] [] [] []]; try reflexivity. discriminate. }
+           rewrite Db, <- Eb. apply (read_fixed_text None); auto.
+  - unfold decval. rewrite dval_dabs.
+    assert (Eq : (sgnQ (dneg x) * inject_Z D * (10 # 1) ^ (- p) - sgnQ (dneg x) * dabs x
+                  == sgnQ (dneg x) * (inject_Z D * p10 (- p) - dabs x))%Q) by (unfold p10; ring).
+    rewrite Eq, sgnQ_abs. apply Qabs_Qle_condition.
+    exact (fixed_digits_spec (d_num x) (d_den x) Dp (dabs x) Fx p).
+Qed.
